@@ -333,7 +333,10 @@ def verify_function(c, mutate=None, canary=False):
                 except (AttributeError, TypeError, Unsupported) as err:
                     e_ast = ast.parse(e, mode="eval") if isinstance(e, str) else e
                     mentions_result = any(isinstance(x, ast.Name) and x.id == "result" for x in ast.walk(e_ast))
-                    if mentions_result and (rst.env["result"] is None or isinstance(rst.env["result"], Opt)):
+                    if isinstance(err, SpecNoneDeref):
+                        # the clause reads a field of a value that is None on this path: it cannot hold here
+                        g = z3.BoolVal(False)
+                    elif mentions_result and (rst.env["result"] is None or isinstance(rst.env["result"], Opt)):
                         # the contract speaks about a value, this path returns None: must be unreachable
                         g = z3.BoolVal(False)
                     else:
